@@ -272,6 +272,23 @@ theorem die_verdict_history_indep (sqrt : α → α) (st st' : Option (α × α)
   obtain ⟨o2, e2, t2, _⟩ := FV.C01.die_complete sqrt st' doc fixed inp hp h2.1 h2.2.1 h2.2.2 picks' hacc'
   exact ⟨⟨o1, _, _, e1, t1⟩, ⟨o2, _, _, e2, t2⟩⟩
 
+/-- the same with ONE validity hypothesis at the largest tolerance any history can leave (`εmax`): every tolerance state
+    whose distance tolerance is `≤ εmax` — whatever sequence of designs produced it — accepts the description with an
+    exact tiling.  This is the form that matches the property's "designs within ×1000 in scale": take `εmax` =
+    1000 × the die's own proposal. -/
+theorem die_verdict_any_history (sqrt : α → α) (doc : YV α) (fixed : List (Rect α)) (inp : DieIn α)
+    (hp : parseDie doc = .ok inp) (εmax : α) (hv : ValidDie εmax inp fixed)
+    (st : Option (α × α))
+    (h0 : 0 ≤ (mkEps sqrt st inp.W inp.H).1.d) (hle : (mkEps sqrt st inp.W inp.H).1.d ≤ εmax)
+    (ha : 0 ≤ (mkEps sqrt st inp.W inp.H).1.a) (picks : List IRect)
+    (hacc : coverAccept ((gridOf (mkEps sqrt st inp.W inp.H).1 inp fixed).2.length - 1)
+      ((gridOf (mkEps sqrt st inp.W inp.H).1 inp fixed).1.length - 1)
+      (occ (gridOf (mkEps sqrt st inp.W inp.H).1 inp fixed).1 (gridOf (mkEps sqrt st inp.W inp.H).1 inp fixed).2
+        (occRects inp fixed)) picks = true) :
+    ∃ out e s, dieModel sqrt st doc fixed (some picks) = .ok (out, e, s) ∧ ExactTiling out := by
+  obtain ⟨o, e, t, _⟩ := FV.C01.die_complete_inherited sqrt st doc fixed inp hp εmax h0 hle ha hv picks hacc
+  exact ⟨o, _, _, e, t⟩
+
 end die
 
 /-! ### the process-wide ROBDD store (second piece of surviving state) -/
